@@ -85,6 +85,9 @@ func checkCompositeLiteral(
 
 	if ptr, ok := types.Unalias(t).(*types.Pointer); ok {
 		t = ptr.Elem()
+	} else if ptr, ok := t.Underlying().(*types.Pointer); ok && lit.Type == nil {
+		// elided element literal whose element type is a defined pointer type (type NP *T; []NP{{...}})
+		t = ptr.Elem()
 	}
 
 	named, ok := types.Unalias(t).(*types.Named)
